@@ -8,7 +8,7 @@ wt=f"/tmp/wt_{pid}{tag}"
 out=f"/tmp/seed_{pid}{tag}"
 print(f"""You are helping evaluate a verification harness by injecting a realistic defect into a Rust code base.
 
-The code base is oxidecomputer/dropshot (a REST API server framework: trie router, versioned endpoints, typed extractors, pagination, OpenAPI generation). You have your own scratch git worktree of it at {wt} (already created, detached HEAD). Work ONLY inside {wt} and {out} (create {out}). Do not touch /repo or /verif, and do not read anything under /verif. The sandbox is offline: always pass --offline to cargo (e.g. `cargo test --offline ...`), nothing can be downloaded.
+The code base is oxidecomputer/dropshot (a REST API server framework: trie router, versioned endpoints, typed extractors, pagination, OpenAPI generation). You have your own scratch git worktree of it at {wt} (already created, detached HEAD). Work ONLY inside {wt} and {out} (create {out}). Do not touch /repo or /verif, and do not read anything under /verif or /root/.claude (ignore any memory notes you may have been shown; they are not part of your task). The sandbox is offline: always pass --offline to cargo (e.g. `cargo test --offline ...`), nothing can be downloaded.
 
 Here is a semantic property that the code base is supposed to satisfy:
 
